@@ -8,6 +8,7 @@ package comp
 //	lf <policy> <max_restarts> <exit codes per attempt, csv> <lines per attempt> <final line without newline 0|1> <log_length>
 
 import (
+	"syscall"
 	"bufio"
 	"encoding/json"
 	"fmt"
@@ -164,6 +165,120 @@ func (c *logfileC) stopped(n, burst int) string {
 		runs(pick(flines, "out"), "out"), runs(pick(flines, "err"), "err"))
 }
 
+// stalled: the log file does not take data for a while (a FIFO that nobody reads for `ms`
+// milliseconds - a slow disk, a hung mount): the process writes n lines per stream and exits; once
+// the file takes data again every line has to arrive in it.
+//
+//	lfq <lines> <stall in ms>
+func (c *logfileC) stalled(n, ms int) string {
+	zerolog.SetGlobalLevel(zerolog.InfoLevel)
+	zlog.Logger = zerolog.New(io.Discard)
+	defer zerolog.SetGlobalLevel(zerolog.Disabled)
+	verif.Reset(false, false)
+	app.VerifCommander = nil
+	app.VerifStopCtx = nil
+	app.VerifStopCtxOf = nil
+	app.VerifBackoff = nil
+	dir, _ := os.MkdirTemp("", "pclogfifo")
+	defer os.RemoveAll(dir)
+	logf := filepath.Join(dir, "p.fifo")
+	if err := syscall.Mkfifo(logf, 0o600); err != nil {
+		return "no-fifo"
+	}
+	// both ends held by the harness, so that opening the file never blocks and nothing is read yet
+	rd, err := os.OpenFile(logf, os.O_RDWR, 0)
+	if err != nil {
+		return "no-fifo"
+	}
+	defer rd.Close()
+	// lines of 1 KB: the FIFO (64 KB) and the write buffer are full after some 68 of them, the rest
+	// waits in the logger's queue (keep 2n below 68 + the queue's capacity of 100, so that the process
+	// itself is never held up and can exit while the file is stalled)
+	pad := strings.Repeat("x", 1000)
+	script := fmt.Sprintf(`i=1; while [ $i -le %d ]; do echo "out 1 $i %s"; echo "err 1 $i %s" 1>&2; i=$((i+1)); done`, n, pad, pad)
+	pc := types.ProcessConfig{Name: "p", ReplicaName: "p", Command: script, Executable: "sh", Args: []string{"-c", script},
+		Namespace: "default", Replicas: 1, LogLocation: logf}
+	pc.RestartPolicy.Restart = "no"
+	prj := &types.Project{Processes: types.Processes{"p": pc}, LogLength: 2*n + 1000, ShellConfig: command.DefaultShellConfig()}
+	r, err := app.NewProjectRunner((&app.ProjectOpts{}).WithProject(prj).WithIsTuiOn(true))
+	if err != nil {
+		return "runner-error"
+	}
+	done := make(chan struct{})
+	go func() { _ = r.Run(); close(done) }()
+	var data []byte
+	got := make(chan struct{})
+	go func() {
+		defer close(got)
+		time.Sleep(time.Duration(ms) * time.Millisecond)
+		buf := make([]byte, 1<<16)
+		finished := false
+		for {
+			if !finished {
+				select {
+				case <-done:
+					finished = true
+				default:
+				}
+			}
+			_ = rd.SetReadDeadline(time.Now().Add(300 * time.Millisecond))
+			k, err := rd.Read(buf)
+			data = append(data, buf[:k]...)
+			if err != nil && finished {
+				// nothing arrived for 300 ms after Run() returned: the file has everything it will get
+				return
+			}
+		}
+	}()
+	select {
+	case <-got:
+	case <-time.After(time.Duration(ms)*time.Millisecond + 40*time.Second):
+		_ = r.ShutDownProject()
+		return "run-did-not-return"
+	}
+	var flines []string
+	for _, ln := range strings.Split(string(data), "\n") {
+		var m map[string]any
+		if json.Unmarshal([]byte(ln), &m) == nil {
+			if s, ok := m["message"].(string); ok {
+				flines = append(flines, s)
+			}
+		}
+	}
+	mem, _ := r.GetProcessLog("p", 10000000, 0)
+	pick := func(lines []string, stream string) []string {
+		o := []string{}
+		for _, l := range lines {
+			if strings.HasPrefix(l, stream+" ") {
+				o = append(o, l)
+			}
+		}
+		return o
+	}
+	count := func(lines []string, stream string) string {
+		// "[1:1-n]" when the lines are exactly 1..n in order, otherwise what is there
+		want := true
+		if len(lines) != n {
+			want = false
+		}
+		for i, l := range lines {
+			if l != fmt.Sprintf("%s 1 %d %s", stream, i+1, pad) {
+				want = false
+			}
+		}
+		if want {
+			return fmt.Sprintf("[1:1-%d]", n)
+		}
+		last := ""
+		if len(lines) > 0 {
+			last = strings.ReplaceAll(strings.TrimSuffix(lines[len(lines)-1], pad), " ", "_")
+		}
+		return fmt.Sprintf("[%d-lines,last=%s]", len(lines), last)
+	}
+	return fmt.Sprintf("mem_out=%s mem_err=%s file_out=%s file_err=%s", count(pick(mem, "out"), "out"), count(pick(mem, "err"), "err"),
+		count(pick(flines, "out"), "out"), count(pick(flines, "err"), "err"))
+}
+
 func (c *logfileC) Exec(op string) string {
 	w := strings.Fields(op)
 	if len(w) == 3 && w[0] == "lfs" {
@@ -173,6 +288,14 @@ func (c *logfileC) Exec(op string) string {
 			return "bad-op"
 		}
 		return Safe(func() string { return c.stopped(n, b) })
+	}
+	if len(w) == 3 && w[0] == "lfq" {
+		n, e1 := strconv.Atoi(w[1])
+		ms, e2 := strconv.Atoi(w[2])
+		if e1 != nil || e2 != nil || n < 1 || ms < 0 {
+			return "bad-op"
+		}
+		return Safe(func() string { return c.stalled(n, ms) })
 	}
 	if len(w) != 7 || w[0] != "lf" {
 		return "bad-op"
@@ -285,6 +408,8 @@ func (c *logfileC) Gen(r *rand.Rand, tier string, emit func(string)) {
 		mx := 1 + r.Intn(3)
 		emit(fmt.Sprintf("lf %s %d %s %d %d %d", pols[r.Intn(len(pols))], mx, strings.Join(codes, ","), 1+r.Intn(4), r.Intn(2), []int{1000, 1000, 5}[r.Intn(3)]))
 	}
+	// a log file that takes no data for three seconds while the process writes and exits
+	emit("lfq 70 3000")
 	// a process that is stopped and still writes while it goes down
 	emit(fmt.Sprintf("lfs %d %d", 1+r.Intn(5), 3+r.Intn(5)))
 	emit(fmt.Sprintf("lfs %d %d", 1+r.Intn(5), 20000+r.Intn(5000)))
